@@ -322,15 +322,23 @@ Definition reply_ok (e : item * list rline) : bool :=
   end.
 
 (** C06: a block larger than the limit is refused with a 5xx reply and delivers nothing; a MAIL
-    declaring a SIZE above the limit is never answered 250. *)
+    declaring a SIZE above the limit is never answered 250. Within the limit nothing is refused
+    for its size: 552 answers neither a block of at most the limit nor a MAIL that declares no
+    SIZE or one within the limit (whatever an earlier, refused MAIL of the session declared),
+    unless an extension hook denied the sender with that very code. *)
 Definition size_ok (c : scfg) (e : entry) : bool :=
   match e with
   | (B (PBlock body _ _), r, d) =>
       if (max_bytes c <? Z.of_nat (length body))%Z
       then (500 <=? first_code r)%Z && (first_code r <? 600)%Z && match d with [] => true | _ => false end
-      else true
-  | (L (Mail (MParsed (SzVal n) _) _), r, d) =>
-      if (max_bytes c <? n)%Z then negb (first_code r =? 250)%Z else true
+      else negb (first_code r =? 552)%Z
+  | (L (Mail (MParsed sz _) h), r, d) =>
+      let within := match h with Deny _ _ => true | _ => negb (first_code r =? 552)%Z end in
+      match sz with
+      | SzVal n => if (max_bytes c <? n)%Z then negb (first_code r =? 250)%Z else within
+      | SzNone => within
+      | SzBad => true
+      end
   | _ => true
   end.
 
